@@ -20,7 +20,15 @@ import (
 	"time"
 )
 
-const verifRoot = "/verif"
+var verifRoot = envOr("VERIF_ROOT", "/verif")
+var repoRoot = envOr("VERIF_REPO", "/repo")
+
+func envOr(k, d string) string {
+	if v := os.Getenv(k); v != "" {
+		return v
+	}
+	return d
+}
 
 type Finding struct {
 	Property  string `json:"property"`
@@ -226,10 +234,25 @@ func (c *Ctx) Finish() {
 			handled[b] = true
 		}
 	}
-	for _, o := range c.BrokenObligs() {
-		if !handled[o.Name] {
-			c.Broken(o.Name, "Lean obligation no longer checks: "+o.Detail, map[string]any{"kind": o.Kind})
+	// a concrete failing input found by this run (and not a listed finding) explains the broken
+	// obligations: name them in its replay instead of reporting them as no-failing-input-found
+	concrete := -1
+	for i, v := range c.violations {
+		if !v.noInput && c.matchFinding(v.signature) == nil {
+			concrete = i
+			break
 		}
+	}
+	for _, o := range c.BrokenObligs() {
+		if handled[o.Name] {
+			continue
+		}
+		if concrete >= 0 {
+			prev, _ := c.violations[concrete].replay["broken_obligations"].([]string)
+			c.violations[concrete].replay["broken_obligations"] = append(prev, o.Name)
+			continue
+		}
+		c.Broken(o.Name, "Lean obligation no longer checks: "+o.Detail, map[string]any{"kind": o.Kind})
 	}
 	os.MkdirAll(filepath.Join(verifRoot, "replays"), 0o755)
 	os.MkdirAll(filepath.Join(verifRoot, "evidence"), 0o755)
